@@ -37,6 +37,8 @@ func init() {
 			{ID: "C04.R8", Text: "written by the next save: a position that moved with dirty=true is marked (whatever the mark's previous value) and raises the save flag (same rules as C05.R1, C05.R2)", Run: func(c *Ctx, id string) { c05r1(c, id); c05r2(c, id) }},
 			{ID: "C04.R9", Text: "the position map is a map: wrapper.ConcurrentSwissMap forwards Load/Store/StoreIf/Delete/Count to the wrapped concurrent map with its own arguments and untouched results, and Range visits every entry until the callback returns false", Run: wrapperFaithful},
 			{ID: "C04.R10", Text: "the tracked position follows what is settled: the function stored into ListenerContext.Ack calls the position writer exactly once on every path with dirty=true (Commit reaches Checkpoint.Save), every non-document listener arm and the reserved-key branch call it exactly once", Run: func(c *Ctx, id string) { ackMoves(c, id); absorbMoves(c, id) }},
+			{ID: "C04.R11", Text: "what the tracker is told is what the library tracks: NewStream wires the consumer, client and metadata it was given into the stream unchanged (no decorator between the position writer and Consumer.TrackOffset)", Run: constructorWiring(wireStream)},
+			{ID: "C04.R12", Text: "a closed session's positions are forgotten: Stream.Close unconditionally replaces the position map and the dirty marks by fresh maps after the streams were closed — nothing of a vBucket handed to another member can be written by a later save", Run: closeResets},
 			{ID: "C04.R4", Text: "the position map has no other writer (same rule as C01.R1)", Run: c01r1},
 		},
 	})
